@@ -190,6 +190,27 @@ func propSpecs() map[string]*PropSpec {
 		Stubs:   []string{tokStub},
 		Assume:  []string{"ClickHouse operator priority table as transcribed (trusted)", "value algebra axioms: isNull(NULL), TRUE/FALSE not null, truth(TRUE), not truth(FALSE)"},
 	})
+	c06 := func() []RunSpec {
+		var r []RunSpec
+		for i := int64(0); i < 22; i++ {
+			r = append(r, rs("H_C06", i))
+		}
+		for i := int64(0); i < 7; i++ {
+			r = append(r, rs("H_C06ops", i))
+		}
+		return r
+	}
+	add(&PropSpec{
+		ID: "C06", Title: "let bindings and parameters are substituted by the documented scoping rules",
+		Quick:    c06(),
+		Thorough: c06(),
+		Covers:   []string{"compiled", "meaning-checked", "suffix-checked", "breaks-rule"},
+		Bounds: map[string]string{"quick": "22 use sites (operand of each operator class, under a sign, index base and index, in-list item, call argument, row counts, sort key, join conditions, quoted / qualified / function-name / table-name / alias contexts, built-in constant and function names) x 10 let prefixes (chains, shadowing, signed and compound values, parameter in a let value) x 3 suffixes (lets after the query) x 4 parameter maps (colliding with a let name, a column, built-in constants, $left); 7 shapes with every binary operator around and inside the binding arbitrary",
+			"thorough": "same as quick"},
+		Outside: []string{"parameter texts that are not a single SQL operand (inserted verbatim by contract)", "a bare join key that is also a binding name (the two documented rules conflict)", "more than two lets before the query"},
+		Stubs:   []string{tokStub + " (operator shapes only; the use-site family runs the real lexer on concrete programs)"},
+		Assume:  []string{"reference: lexical scoping evaluated on the real parser's tree (harness/h/c06.go, valmap.go); value algebra as in C01"},
+	})
 	seeds13 := func(n int64) []RunSpec {
 		var r []RunSpec
 		for i := int64(0); i < 20; i++ {
